@@ -20,6 +20,7 @@ pub mod c15;
 pub mod c16;
 pub mod c17;
 pub mod c18;
+pub mod c19;
 
 pub fn dispatch(run: &mut Run, extra: &[String]) -> bool {
     match run.prop.as_str() {
@@ -41,6 +42,7 @@ pub fn dispatch(run: &mut Run, extra: &[String]) -> bool {
         "C16" => c16::run(run),
         "C17" => c17::run(run),
         "C18" => c18::run(run),
+        "C19" => c19::run(run, extra),
         _ => return false,
     }
     true
